@@ -34,6 +34,7 @@ func main() {
 	cfg := vlib.ParseFlags("C19", "model_checking")
 	r := vlib.NewReport(cfg)
 	logx.Disable()
+	getEnv() // start miniredis + client (and load the scripts) outside any controlled execution
 	scs := scenarios()
 	quick, thorough := vx.Bounds{P: 4, T: 0}, vx.Bounds{P: 8, T: 0}
 
